@@ -8,10 +8,13 @@ class Recorder:
     def __init__(self):
         self.log = []
         self.closing = False
+        self.clock = None
 
     # transport
     def write(self, data):
         for ev in ashref.parse_written(bytes(data)):
+            if ev[0] == "data" and self.clock is not None:
+                ev = tuple(ev) + (self.clock(),)
             self.log.append(("w",) + tuple(ev))
 
     def is_closing(self):
